@@ -5,6 +5,7 @@ import (
 	"fmt"
 	"reflect"
 	"regexp"
+	"sort"
 	"sync"
 
 	"github.com/graphql-go/graphql/language/ast"
@@ -509,7 +510,16 @@ func defineFieldMap(ttype Named, fieldMap Fields) (FieldDefinitionMap, error) {
 		return resultFieldMap, err
 	}
 
-	for fieldName, field := range fieldMap {
+	// Walk fields and arguments in name order: Go map iteration order would
+	// otherwise decide the order of FieldDefinition.Args (visible through
+	// introspection) and which of several configuration errors is reported.
+	fieldNames := make([]string, 0, len(fieldMap))
+	for fieldName := range fieldMap {
+		fieldNames = append(fieldNames, fieldName)
+	}
+	sort.Strings(fieldNames)
+	for _, fieldName := range fieldNames {
+		field := fieldMap[fieldName]
 		if field == nil {
 			continue
 		}
@@ -536,7 +546,13 @@ func defineFieldMap(ttype Named, fieldMap Fields) (FieldDefinitionMap, error) {
 		}
 
 		fieldDef.Args = []*Argument{}
-		for argName, arg := range field.Args {
+		argNames := make([]string, 0, len(field.Args))
+		for argName := range field.Args {
+			argNames = append(argNames, argName)
+		}
+		sort.Strings(argNames)
+		for _, argName := range argNames {
+			arg := field.Args[argName]
 			if err = assertValidName(argName); err != nil {
 				return resultFieldMap, err
 			}
@@ -976,7 +992,15 @@ func (gt *Enum) defineEnumValues(valueMap EnumValueConfigMap) ([]*EnumValueDefin
 		return values, err
 	}
 
-	for valueName, valueConfig := range valueMap {
+	// Define the values in name order so that Values() (and with it the
+	// enumValues introspection list) does not depend on map iteration order.
+	valueNames := make([]string, 0, len(valueMap))
+	for valueName := range valueMap {
+		valueNames = append(valueNames, valueName)
+	}
+	sort.Strings(valueNames)
+	for _, valueName := range valueNames {
+		valueConfig := valueMap[valueName]
 		if err = invariantf(
 			valueConfig != nil,
 			`%v.%v must refer to an object with a "value" key `+
@@ -1170,7 +1194,13 @@ func (gt *InputObject) defineFieldMap() InputObjectFieldMap {
 		return resultFieldMap
 	}
 
-	for fieldName, fieldConfig := range fieldMap {
+	fieldNames := make([]string, 0, len(fieldMap))
+	for fieldName := range fieldMap {
+		fieldNames = append(fieldNames, fieldName)
+	}
+	sort.Strings(fieldNames)
+	for _, fieldName := range fieldNames {
+		fieldConfig := fieldMap[fieldName]
 		if fieldConfig == nil {
 			continue
 		}
